@@ -107,7 +107,12 @@ Record world : Type := mkworld {
 Definition upd (f : nat -> wk) (p : nat) (k : wk) : nat -> wk :=
   fun q => if Nat.eqb q p then k else f q.
 
-Definition wstep (pid : nat) (a : wact) (w : world) : world :=
+(* o_tasks  = "the task loop and rqueue.put are consecutive statements of worker_wrapper" (par_ord_tasks_before_result);
+              if not (e.g. the put sits in a `finally`), a worker whose task raised still queues a (partial) result;
+   o_status = "the worker does not wait for its status queue at its end" (par_ord_status_nonblocking, fix
+              10bab65); if it does, the regular end may never happen (the master reads the status queue only
+              during its own chunk) *)
+Definition wstep_gen (o_tasks o_status : bool) (pid : nat) (a : wact) (w : world) : world :=
   if (1 <=? pid)%nat && (pid <=? np)%nat then
     let k := wks w pid in
     match exitc k with
@@ -119,18 +124,22 @@ Definition wstep (pid : nat) (a : wact) (w : world) : world :=
       | APutResult, WRun =>
           match wres pid with
           | Ok r => mkworld (rq w ++ [(pid, r)]) (upd (wks w) pid (mkwk WPut None (lq k)))
-          | Err _ => w
+          | Err _ => if o_tasks then w
+                     else mkworld (rq w ++ [(pid, [])]) (upd (wks w) pid (mkwk WPut None (lq k)))
           end
       | APutEnd, WPut =>
           mkworld (rq w) (upd (wks w) pid (mkwk WDone None (lq k ++ [None])))
       | AExit0, WDone =>
-          mkworld (rq w) (upd (wks w) pid (mkwk WDone (Some 0%Z) (lq k)))
+          if o_status then mkworld (rq w) (upd (wks w) pid (mkwk WDone (Some 0%Z) (lq k))) else w
       | ADie c, p =>
           mkworld (rq w) (upd (wks w) pid (mkwk p (Some c) (lq k)))
       | _, _ => w
       end
     end
   else w.
+
+Definition wstep : nat -> wact -> world -> world :=
+  wstep_gen par_ord_tasks_before_result par_ord_status_nonblocking.
 
 (* ------------------------------------------------------------------------- *)
 (* master: the gather loop *)
@@ -175,11 +184,16 @@ Fixpoint assemble_from (d : list (nat * list R)) (ps : list nat) : res (list R) 
 Definition assemble (d : list (nat * list R)) : res (list R) :=
   assemble_from d (seq 0 (length d)).
 
-Definition mstep (w : world) (m : mst) : sys :=
+(* the order in which the code reads the shared state is a parameter:
+   o_get  = all_procs_ended is evaluated BEFORE rqueue.get(block=False)      (par_ord_ended_before_get)
+   o_died = the exit codes are examined BEFORE the all_procs_ended test      (par_ord_died_before_all_ended)
+   o_lget = pid_proc_ended is evaluated BEFORE lqueue_list[pid].get(timeout) (par_ord_ended_before_log_get)
+   With a flag = false the read happens after the failed get (in the queue.Empty handler). *)
+Definition mstep_gen (o_get o_died o_lget : bool) (w : world) (m : mst) : sys :=
   match ph m with
   | PollA =>
       if (it m <? np)%nat
-      then Run w (mkmst (it m) (PollB (all_ended w)) (pmap m))
+      then Run w (mkmst (it m) (PollB (if o_get then all_ended w else false)) (pmap m))
       else Run w (mkmst (it m) Join (pmap m))
   | PollB ae =>
       match rq w with
@@ -187,22 +201,33 @@ Definition mstep (w : world) (m : mst) : sys :=
           (* result_received = True; the while test decides whether the loop is left *)
           if par_poll_continue true
           then Run (mkworld rest (wks w)) (mkmst (it m) PollA (pmap m))
-          else Run (mkworld rest (wks w)) (mkmst (it m) (DrainA pid) (dset pid r (pmap m)))
+          else Run (mkworld rest (wks w))
+                   (mkmst (it m) (if o_lget then DrainA pid else DrainB pid false) (dset pid r (pmap m)))
       | [] => Run w (mkmst (it m) (PollC ae) (pmap m))
       end
   | PollC ae =>
-      if any_died w then Fin (Fail ChildDied)
-      else if par_all_ended_raises ae then Fin (Fail MissingResult)
-      else if par_poll_continue false
-           then Run w (mkmst (it m) PollA (pmap m))        (* time.sleep(0.01) *)
-           else Fin (Fail BadRecord)                         (* `pid` unbound *)
+      let ae' := if o_get then ae else all_ended w in
+      let cont := if par_poll_continue false
+                  then Run w (mkmst (it m) PollA (pmap m))        (* time.sleep(0.01) *)
+                  else Fin (Fail BadRecord) in                      (* `pid` unbound *)
+      if o_died then
+        if any_died w then Fin (Fail ChildDied)
+        else if par_all_ended_raises ae' then Fin (Fail MissingResult)
+        else cont
+      else
+        if par_all_ended_raises ae' then Fin (Fail MissingResult)
+        else if any_died w then Fin (Fail ChildDied)
+        else cont
   | DrainA pid =>
       (* pid_proc = processes[pid-1]; lqueue_list[pid] *)
       let idx := par_pid_proc_idx0 (Z.of_nat pid) in
       if ((0 <=? idx) && (idx <? Z.of_nat np))%Z
-      then Run w (mkmst (it m)
-                        (DrainB pid (par_pid_proc_ended (exitc (wks w (S (Z.to_nat idx))))))
-                        (pmap m))
+      then
+        let ended_now := par_pid_proc_ended (exitc (wks w (S (Z.to_nat idx)))) in
+        if o_lget then Run w (mkmst (it m) (DrainB pid ended_now) (pmap m))
+        else (* variant: this read happens after a failed lqueue get *)
+          if par_log_raises ended_now then Fin (Fail LogIncomplete)
+          else Run w (mkmst (it m) (DrainB pid false) (pmap m))
       else Fin (Fail BadRecord)
   | DrainB pid e =>
       match lq (wks w pid) with
@@ -211,17 +236,22 @@ Definition mstep (w : world) (m : mst) : sys :=
           let w' := mkworld (rq w) (upd (wks w) pid (mkwk (pc k) (exitc k) rest)) in
           (* if record is None: lqueue_end = True; while not lqueue_end *)
           if par_drain_continue (par_is_end_marker item)
-          then Run w' (mkmst (it m) (DrainA pid) (pmap m))
+          then Run w' (mkmst (it m) (if o_lget then DrainA pid else DrainB pid false) (pmap m))
           else Run w' (mkmst (S (it m)) PollA (pmap m))
       | [] =>
-          if par_log_raises e then Fin (Fail LogIncomplete)
-          else Run w (mkmst (it m) (DrainA pid) (pmap m))    (* continue *)
+          if o_lget then
+            if par_log_raises e then Fin (Fail LogIncomplete)
+            else Run w (mkmst (it m) (DrainA pid) (pmap m))    (* continue *)
+          else Run w (mkmst (it m) (DrainA pid) (pmap m))      (* variant: now look at the exit code *)
       end
   | Join =>
       if all_ended w
       then Fin (match assemble (pmap m) with Ok r => Done r | Err _ => Fail KeyMissing end)
       else Run w m                                           (* blocked in proc.join() *)
   end.
+
+Definition mstep : world -> mst -> sys :=
+  mstep_gen par_ord_ended_before_get par_ord_died_before_all_ended par_ord_ended_before_log_get.
 
 Definition step (a : action) (s : sys) : sys :=
   match s with
@@ -235,6 +265,20 @@ Definition step (a : action) (s : sys) : sys :=
 
 Definition exec (sched : list action) (s : sys) : sys :=
   fold_left (fun s a => step a s) sched s.
+
+(* the same system with the order facts as parameters (for the witnesses that each fact is needed) *)
+Definition step_gen (o_get o_died o_lget o_tasks o_status : bool) (a : action) (s : sys) : sys :=
+  match s with
+  | Fin o => Fin o
+  | Run w m =>
+      match a with
+      | Master => mstep_gen o_get o_died o_lget w m
+      | Worker pid wa => Run (wstep_gen o_tasks o_status pid wa w) m
+      end
+  end.
+
+Definition exec_gen (o_get o_died o_lget o_tasks o_status : bool) (sched : list action) (s : sys) : sys :=
+  fold_left (fun s a => step_gen o_get o_died o_lget o_tasks o_status a s) sched s.
 
 Definition fresh : wk := mkwk WRun None [].
 
@@ -310,6 +354,22 @@ Definition log_backlog (w : world) : nat :=
 (* bound on the number of master steps still possible once all children have ended *)
 Definition poll_bound (w : world) : nat :=
   8 * (length (rq w) + log_backlog w) + 7.
+
+(* what worker_wrapper does after its tasks: result record, end marker, regular end *)
+Definition worker_program (p : nat) : list action :=
+  [Worker p APutResult; Worker p APutEnd; Worker p AExit0].
+
+Inductive subseq {X : Type} : list X -> list X -> Prop :=
+| sub_nil l : subseq [] l
+| sub_skip a p l : subseq p l -> subseq p (a :: l)
+| sub_take a p l : subseq p l -> subseq (a :: p) (a :: l).
+
+(* a schedule is fair when every child process is run to the end of its program (if none of its tasks raises)
+   or dies / is killed (by an exception, a signal, an external watchdog) at some point *)
+Definition fair (sched : list action) : Prop :=
+  forall p, 1 <= p <= np ->
+    ((exists r, wres p = Ok r) /\ subseq (worker_program p) sched) \/
+    (exists c, In (Worker p (ADie c)) sched).
 
 End Gather.
 
@@ -397,7 +457,7 @@ Definition rss_of (s0 : St) (ncpu : Z) (pid : nat) : St :=
   let (ds, s1) := draws (Z.to_nat (par_seed_hi ncpu - par_seed_lo)) s0 in
   match pid with
   | O => s1
-  | S p => match nth_error ds p with Some d => mk d | None => s1 end
+  | S p => match nth_error ds p with Some d => mk (par_child_seed d) | None => s1 end
   end.
 
 Definition parallelize_rss (g : St -> A -> res (R * St)) (s0 : St) (args : list A) (ncpu : Z)
@@ -427,3 +487,23 @@ Definition sched_b : list action :=
   [Worker 1 APutResult; Worker 1 (ADie 1%Z); Worker 2 APutResult; Worker 2 APutEnd;
    Worker 2 AExit0; Master; Master].
 
+
+(* ------------------------------------------------------------------------- *)
+(* witnesses that the order facts are needed (1 worker unless stated) *)
+
+(* all_procs_ended evaluated after the failed get: the worker delivers and ends in between *)
+Definition sched_late_flag : list action :=
+  [Master; Master; Worker 1 APutResult; Worker 1 APutEnd; Worker 1 AExit0; Master].
+
+(* pid_proc_ended evaluated after the failed log get: the worker puts the end marker and ends in between *)
+Definition sched_late_log_flag : list action :=
+  [Worker 1 APutResult; Master; Master; Master; Worker 1 APutEnd; Worker 1 AExit0; Master].
+
+(* result put in a `finally`: the worker's task raised, it queues a partial result, the end marker, and dies *)
+Definition wres_raise : nat -> res (list nat) := fun _ => Err RuntimeError.
+Definition sched_finally : list action :=
+  [Worker 1 APutResult; Worker 1 APutEnd; Worker 1 (ADie 1%Z)] ++ repeat Master 12.
+
+(* the worker ran its whole program but waits for its status queue to be read *)
+Definition sched_status_block : list action :=
+  worker_program 1 ++ repeat Master 6.
